@@ -209,6 +209,20 @@ func (e *Env) evalT(s *Sexp) (string, types.Type, error) {
 		}
 		vc.bitsMemo[key] = b
 		return b, nil, nil
+	case "addrof", "ifaceptr":
+		// (addrof PATH): the address of a Go location; (ifaceptr PATH): an interface value holding that pointer
+		if len(s.List) != 2 || s.List[1].IsL {
+			return "", nil, fmt.Errorf("(%s PATH) takes a Go location", head)
+		}
+		p, err := e.resolvePtr(s.List[1].Atom)
+		if err != nil {
+			return "", nil, err
+		}
+		id := vc.ptrTerm(SV{P: p})
+		if head == "addrof" {
+			return id, nil, nil
+		}
+		return fmt.Sprintf("(mk-Iface %d %s)", vc.tid(types.NewPointer(p.typ)), id), nil, nil
 	case "fresh":
 		t, _, err := e.evalT(s.List[1])
 		if err != nil {
@@ -445,6 +459,16 @@ func splitPath(a string) (string, []string) {
 
 // lookupRoot finds the value bound to a root name.
 func (e *Env) lookupRoot(name string) (SV, bool) {
+	if strings.HasSuffix(name, "@0") { // entry value of a parameter, also inside loops that reassign it
+		sv, ok := e.roots[strings.TrimSuffix(name, "@0")]
+		return sv, ok
+	}
+	if e.frame != nil && e.frame.curHead != nil {
+		// inside a loop annotation a loop-carried variable shadows the parameter of the same name
+		if sv, ok := e.frame.lookupLoopPhi(name); ok {
+			return sv, true
+		}
+	}
 	if sv, ok := e.roots[name]; ok {
 		return sv, true
 	}
@@ -725,6 +749,32 @@ func (f *Frame) lookupLocal(name string) (SV, bool) {
 		if _, isConst := v.(*ssa.Const); isConst {
 			return f.val(v), true
 		}
+	}
+	return SV{}, false
+}
+
+// lookupLoopPhi finds a phi named name in the current loop head or an enclosing loop head.
+func (f *Frame) lookupLoopPhi(name string) (SV, bool) {
+	var best ssa.Value
+	bestSize := 1 << 30
+	for h, li := range f.loops {
+		if h != f.curHead && !li.blocks[f.curHead] {
+			continue
+		}
+		for _, ins := range h.Instrs {
+			phi, ok := ins.(*ssa.Phi)
+			if !ok {
+				break
+			}
+			if phi.Comment == name {
+				if _, has := f.vals[phi]; has && len(li.blocks) < bestSize {
+					best, bestSize = phi, len(li.blocks)
+				}
+			}
+		}
+	}
+	if best != nil {
+		return f.vals[best], true
 	}
 	return SV{}, false
 }
